@@ -109,6 +109,17 @@ func TestC10Equiv(t *testing.T) {
 		g := NewGen(x, cfg)
 		cut := false
 		checkpointNow := false
+		// settle: background freeing finished; the journal is flushed by hand only when unstable data is pending - when
+		// every acknowledgement so far was a stable one, everything must be on the device already, and the comparison
+		// with a server started on the disk is made without helping
+		settle := func() {
+			if x.Unflushed {
+				x.S.Quiesce()
+			} else {
+				x.S.N.VerifWaitShrinkers()
+				St.Class("comparisons_without_flushing_by_hand")
+			}
+		}
 		fail := func(format string, a ...any) {
 			failf(t, "C10", map[string]any{"history": headLog(x.Log, 80), "unstable": cc.Unstable}, format, a...)
 		}
@@ -185,12 +196,12 @@ func TestC10Equiv(t *testing.T) {
 				nontrivial = true
 			}
 			o := Guard(x.Watchdog, func() {
-				x.S.Quiesce()
+				settle()
 				fs := x.S.N.VerifFsState()
 				cerr = CacheCoherent(fs)
 				ferr = Fsck(fs, FsckOpts{Allocators: true}).Err()
 				dumpA, errA = dumpServer(x.S.API(), x.S.RootFH())
-				x.S.Quiesce()
+				settle()
 				// recovery from the image at this point
 				img := x.S.D.Clone()
 				img.SetRecord(false)
@@ -238,7 +249,7 @@ func TestC10Equiv(t *testing.T) {
 				}
 			}
 			o := Guard(x.Watchdog, func() {
-				x.S.Quiesce()
+				settle()
 				before, e1 = dumpServer(x.S.API(), x.S.RootFH())
 			})
 			if o.Slow {
